@@ -270,9 +270,10 @@ Qed.
 (* Theorem 1: after worker_init no reachable generator is the inherited copy *)
 (* ---------------------------------------------------------------- *)
 Lemma dsclosed_parts : forall ds, dsclosed ds = true ->
-    (forall c b, In (c, b) (ds_fwd ds) -> b = true) /\ ds_wrapper ds = true /\ ds_root ds = true.
+    (forall c b, In (c, b) (ds_fwd ds) -> b = true) /\ ds_wrapper ds = true /\ ds_root ds = true /\ ds_transform ds = true.
 Proof.
-  unfold dsclosed. intros ds H. apply andb_prop in H. destruct H as [H Hr]. apply andb_prop in H. destruct H as [Hf Hw].
+  unfold dsclosed. intros ds H. apply andb_prop in H. destruct H as [H Ht]. apply andb_prop in H. destruct H as [H Hr].
+  apply andb_prop in H. destruct H as [Hf Hw].
   repeat split; try assumption. intros c b Hin. rewrite forallb_forall in Hf. exact (Hf _ Hin).
 Qed.
 
@@ -314,7 +315,7 @@ Section Thm1.
 
   Lemma wi_ok_all : forall s, wi_ok s.
   Proof.
-    destruct (dsclosed_parts ds Hds) as [Hfw [Hwr Hrt]].
+    destruct (dsclosed_parts ds Hds) as [Hfw [Hwr [Hrt Htr]]].
     induction s as [cs | [c kids] inner IH | c l IH] using dstack_ind'; unfold wi_ok; intros Hwf Hk k.
     - (* root *)
       cbn [worker_init]. rewrite Hrt. cbn [fst snd]. split; [lia|].
@@ -325,7 +326,7 @@ Section Thm1.
     - (* wrapper *)
       cbn [swf] in Hwf. apply andb_prop in Hwf. destruct Hwf as [Hw Hin]. cbn [fwd_known] in Hk.
       unfold wwf in Hw. destruct (wlookup wt c) as [d|] eqn:El; [|discriminate].
-      cbn [worker_init]. rewrite Hwr. rewrite El.
+      cbn [worker_init]. rewrite Hwr. rewrite El. rewrite Htr.
       destruct (wi_fields tbl (w_wi d) k kids) as [k1 kids'] eqn:Ef.
       specialize (IH Hin Hk k1). cbv zeta in IH.
       destruct (worker_init tbl ctbl wt ds k1 inner) as [k2 inner'] eqn:Ei. cbn [fst snd] in *.
@@ -614,14 +615,18 @@ Section Thm3.
       unfold wwf in Hw. destruct (wlookup wt c) as [d|] eqn:El; [|discriminate].
       cbn [worker_init]. destruct (ds_wrapper ds); cbn [fst snd]; [|apply Upds_refl].
       rewrite El.
-      destruct (wi_fields tbl (w_wi d) k kids) as [k1 kids'] eqn:Ef.
+      destruct (if ds_transform ds then wi_fields tbl (w_wi d) k kids else (k, kids)) as [k1 kids'] eqn:Ef.
+      assert (HUf : Upds k k1 (kids_units tbl (w_calls d) kids) (kids_units tbl (w_calls d) kids')).
+      { destruct (ds_transform ds).
+        - eapply (wi_fields_Upds tbl Hc (w_fields d) (w_calls d)); eauto.
+        - inversion Ef; subst. apply Upds_refl. }
       specialize (IH Hin k1). cbv zeta in IH.
       destruct (worker_init tbl ctbl wt ds k1 inner) as [k2 inner'] eqn:Ei. cbn [fst snd] in *.
       cbn [stack_units wobj_units]. rewrite El.
       change (Upds k k2 ([own_draws wt c] ++ kids_units tbl (w_calls d) kids ++ stack_units tbl ctbl wt inner)
                         (([own_draws wt c] ++ kids_units tbl (w_calls d) kids') ++ stack_units tbl ctbl wt inner')).
       eapply Us_trans.
-      + apply Upds_frame. eapply (wi_fields_Upds tbl Hc (w_fields d) (w_calls d)); eauto.
+      + apply Upds_frame. exact HUf.
       + rewrite app_assoc. apply Upds_prefix. exact IH.
     - rewrite worker_init_fwd. destruct (forwards ds c); cbn [fst snd]; [|apply Upds_refl].
       cbn [swf] in Hwf.
@@ -938,7 +943,7 @@ Section Thm2.
 
   Lemma wi_shape_all : forall s, wi_shape s.
   Proof.
-    destruct (dsclosed_parts ds Hds) as [Hfw [Hwr Hrt]].
+    destruct (dsclosed_parts ds Hds) as [Hfw [Hwr [Hrt Htr]]].
     induction s as [cs | [c kids] inner IH | c l IH] using dstack_ind'; unfold wi_shape; intros s2 He Hwf Hk k.
     - destruct s2 as [cs2 | |]; simpl in He; try discriminate. inversion He as [Hm].
       cbn [worker_init]. rewrite Hrt. cbn [fst snd stack_units]. split; [reflexivity|]. f_equal.
@@ -951,7 +956,7 @@ Section Thm2.
       subst c2. destruct (werase_KSim tbl c kids c kids2) as [_ HS]; [simpl; rewrite Ek; reflexivity|].
       cbn [swf] in Hwf. apply andb_prop in Hwf. destruct Hwf as [Hw Hin]. cbn [fwd_known] in Hk.
       unfold wwf in Hw. destruct (wlookup wt c) as [d|] eqn:El; [|discriminate].
-      cbn [worker_init]. rewrite Hwr. rewrite El.
+      cbn [worker_init]. rewrite Hwr. rewrite El. rewrite Htr.
       destruct (wi_fields tbl (w_wi d) k kids) as [k1 kidsA'] eqn:EfA.
       destruct (wi_fields tbl (w_wi d) k kids2) as [k1' kidsB'] eqn:EfB.
       destruct (wi_fields_sim tbl Hc (w_fields d) (w_wi d) _ kids kids2 HS Hw k k1 kidsA' k1' kidsB' EfA EfB) as [Ek1 HS'].
@@ -1111,6 +1116,128 @@ Proof.
   pose proof (worker_seed_owned_by_one_unit_proof tbl ctbl wt ds Hc Hcc (serase s) Hwf'
                 (inherited_serase tbl ctbl wt s) k) as H.
   cbv zeta in H. unfold r. rewrite E1, E2. exact H.
+Qed.
+
+(* ---------------------------------------------------------------- *)
+(* Histories: worker_init is a function of (stack SHAPE, worker seed) only.  The hook writes generator slots and     *)
+(* nothing else - in particular nothing a later run of the hook (in the same process, or in a copy of the object      *)
+(* made afterwards) could consult - so after ANY history of earlier runs the next run gives the units the first run   *)
+(* on a pristine object would have given.                                                                             *)
+(* ---------------------------------------------------------------- *)
+Definition kerase (kids : list (string * list tree)) : list (string * list tree) :=
+  map (fun fk : string * list tree => (fst fk, map erase (snd fk))) kids.
+
+Lemma wi_trees_erase : forall tbl g ts k, map erase (snd (wi_trees tbl g k ts)) = map erase ts.
+Proof.
+  intros tbl g. induction ts as [|t ts IH]; intros k; simpl; [reflexivity|].
+  destruct (admits tbl g (cls_of t)).
+  - specialize (IH (S k)). destruct (wi_trees tbl g (S k) ts) as [k1 r]. simpl in *. rewrite erase_set_rng, IH. reflexivity.
+  - specialize (IH k). destruct (wi_trees tbl g k ts) as [k1 r]. simpl in *. rewrite IH. reflexivity.
+Qed.
+
+Lemma wi_pass_erase : forall tbl f g kids k, kerase (snd (wi_pass tbl f g k kids)) = kerase kids.
+Proof.
+  intros tbl f g. unfold kerase. induction kids as [|fk l IH]; intros k; simpl; [reflexivity|].
+  destruct (String.eqb (fst fk) f).
+  - pose proof (wi_trees_erase tbl g (snd fk) k) as Ht.
+    destruct (wi_trees tbl g k (snd fk)) as [k1 ts']. specialize (IH k1).
+    destruct (wi_pass tbl f g k1 l) as [k2 r]. simpl in *. rewrite Ht, IH. reflexivity.
+  - specialize (IH k). destruct (wi_pass tbl f g k l) as [k2 r]. simpl in *. rewrite IH. reflexivity.
+Qed.
+
+Lemma wi_fields_erase : forall tbl wi k kids, kerase (snd (wi_fields tbl wi k kids)) = kerase kids.
+Proof.
+  intros tbl. induction wi as [|[f g] wi IH]; intros k kids; simpl; [reflexivity|].
+  pose proof (wi_pass_erase tbl f g kids k) as Hp.
+  destruct (wi_pass tbl f g k kids) as [k1 kids1]. simpl in Hp. rewrite IH. exact Hp.
+Qed.
+
+Lemma serase_worker_init : forall tbl ctbl wt ds s k, serase (snd (worker_init tbl ctbl wt ds k s)) = serase s.
+Proof.
+  intros tbl ctbl wt ds. induction s as [cs | [c kids] inner IH | c l IH] using dstack_ind'; intros k.
+  - cbn [worker_init]. destruct (ds_root ds); [|reflexivity]. cbn [snd serase]. f_equal.
+    rewrite map_map. apply map_ext. intros t. apply erase_set_rng.
+  - cbn [worker_init]. destruct (ds_wrapper ds); [|reflexivity].
+    assert (Hk : forall r : nat * list (string * list tree),
+               r = match wlookup wt c with
+                   | Some d => if ds_transform ds then wi_fields tbl (w_wi d) k kids else (k, kids)
+                   | None => (k, kids)
+                   end -> kerase (snd r) = kerase kids).
+    { intros r E. subst r. destruct (wlookup wt c) as [d|]; [|reflexivity].
+      destruct (ds_transform ds); [apply wi_fields_erase | reflexivity]. }
+    destruct (match wlookup wt c with
+              | Some d => if ds_transform ds then wi_fields tbl (w_wi d) k kids else (k, kids)
+              | None => (k, kids)
+              end) as [k1 kids'] eqn:Ef.
+    specialize (Hk (k1, kids') eq_refl). cbn [snd] in Hk.
+    specialize (IH k1). destruct (worker_init tbl ctbl wt ds k1 inner) as [k2 inner']. cbn [snd] in *.
+    cbn [serase werase]. fold (kerase kids'). fold (kerase kids). rewrite Hk, IH. reflexivity.
+  - rewrite worker_init_fwd. destruct (forwards ds c); [|reflexivity].
+    assert (Hl : forall k, map serase (snd (wi_list tbl ctbl wt ds k l)) = map serase l).
+    { clear k. induction l as [|x l IHl]; intros k; [reflexivity|].
+      inversion IH as [|? ? Hx HFl]; subst. cbn [wi_list].
+      specialize (Hx k). destruct (worker_init tbl ctbl wt ds k x) as [k1 x']. cbn [snd] in Hx.
+      specialize (IHl HFl k1). destruct (wi_list tbl ctbl wt ds k1 l) as [k2 r]. cbn [snd map] in *.
+      rewrite Hx, IHl. reflexivity. }
+    specialize (Hl k). destruct (wi_list tbl ctbl wt ds k l) as [k' r]. cbn [snd serase] in *. rewrite Hl. reflexivity.
+Qed.
+
+Lemma serase_wi_history : forall tbl ctbl wt ds ks s, serase (wi_history tbl ctbl wt ds ks s) = serase s.
+Proof.
+  intros tbl ctbl wt ds. induction ks as [|k' ks IH]; intros s; [reflexivity|].
+  cbn [wi_history]. rewrite IH. apply serase_worker_init.
+Qed.
+
+(* being an instance of the tables is a property of the shape: every state a history of hooks leaves is well-formed *)
+Lemma swf_wi_history : forall tbl ctbl wt ds ks s,
+    swf tbl ctbl wt (wi_history tbl ctbl wt ds ks s) = swf tbl ctbl wt s.
+Proof.
+  intros. rewrite <- (swf_serase tbl ctbl wt (wi_history tbl ctbl wt ds ks s)), serase_wi_history. apply swf_serase.
+Qed.
+
+Theorem worker_init_preserves_shape_proof : forall tbl ctbl wt ds s k,
+    serase (snd (worker_init tbl ctbl wt ds k s)) = serase s
+    /\ swf tbl ctbl wt (snd (worker_init tbl ctbl wt ds k s)) = swf tbl ctbl wt s.
+Proof.
+  intros. split; [apply serase_worker_init|].
+  exact (swf_wi_history tbl ctbl wt ds [k] s).
+Qed.
+
+Theorem worker_init_idempotent_in_history_proof : forall tbl ctbl wt ds,
+    forallb (closed tbl) tbl = true ->
+    forallb (closed ctbl) ctbl = true ->
+    forallb (wiclosed tbl) wt = true ->
+    dsclosed ds = true ->
+    forall s, swf tbl ctbl wt s = true -> fwd_known ds s = true ->
+    forall ks k,
+      let h := wi_history tbl ctbl wt ds ks s in
+      fst (worker_init tbl ctbl wt ds k h) = fst (worker_init tbl ctbl wt ds k s)
+      /\ stack_units tbl ctbl wt (snd (worker_init tbl ctbl wt ds k h)) = stack_units tbl ctbl wt (snd (worker_init tbl ctbl wt ds k s))
+      /\ stack_draws tbl ctbl wt (snd (worker_init tbl ctbl wt ds k h)) = stack_draws tbl ctbl wt (snd (worker_init tbl ctbl wt ds k s)).
+Proof.
+  intros tbl ctbl wt ds Hc Hcc Hwi Hds s Hwf Hk ks k h.
+  destruct (worker_streams_function_of_worker_seed_proof tbl ctbl wt ds Hc Hcc Hwi Hds s h
+              (eq_sym (serase_wi_history tbl ctbl wt ds ks s)) Hwf Hk k) as [E1 [E2 E3]].
+  repeat split; symmetry; assumption.
+Qed.
+
+(* the LAST seed wins: whatever hooks ran before, after the run that started at k every generator is derived from
+   the draws k .. of the process that ran it *)
+Theorem worker_init_last_seed_wins_proof : forall tbl ctbl wt ds,
+    forallb (closed tbl) tbl = true ->
+    forallb (closed ctbl) ctbl = true ->
+    forallb (wiclosed tbl) wt = true ->
+    dsclosed ds = true ->
+    forall s, swf tbl ctbl wt s = true -> fwd_known ds s = true ->
+    forall ks k q,
+      let h := wi_history tbl ctbl wt ds ks s in
+      In q (stack_draws tbl ctbl wt (snd (worker_init tbl ctbl wt ds k h))) ->
+      worker_derived k (fst (worker_init tbl ctbl wt ds k h)) q = true.
+Proof.
+  intros tbl ctbl wt ds Hc Hcc Hwi Hds s Hwf Hk ks k q h Hq.
+  destruct (worker_init_idempotent_in_history_proof tbl ctbl wt ds Hc Hcc Hwi Hds s Hwf Hk ks k) as [E1 [_ E3]].
+  fold h in E1, E3. rewrite E1. rewrite E3 in Hq.
+  apply after_worker_init_no_copied_slot_proof; assumption.
 Qed.
 
 (* ---------------------------------------------------------------- *)
